@@ -269,3 +269,35 @@ class _r_seek:
         "rbounded(self) == old(rbounded(self))",
         "implies(rbounded(self), rlimit(self) == old(rlimit(self)))",
     ]
+
+
+# ---- native generators (replay / bounded stand-in) ------------------------------------------------
+
+
+def gen_reader(rng):
+    import io
+    from vc2_conformance.bitstream.io import BitstreamReader
+
+    f = io.BytesIO(bytes(rng.choice([0, 0, 255, 128, 1, rng.randrange(256)]) for _ in range(rng.randint(0, 6))))
+    r = BitstreamReader(f)
+    try:
+        for _ in range(rng.randint(0, 12)):
+            r.read_bit()
+        if rng.random() < 0.5:
+            r.bounded_block_begin(rng.randint(-2, 30))
+            for _ in range(rng.randint(0, 4)):
+                r.read_bit()
+    except EOFError:
+        pass
+    return r
+
+
+def gen_file(rng):
+    import io
+
+    f = io.BytesIO(bytes(rng.randrange(256) for _ in range(rng.randint(0, 5))))
+    f.seek(rng.randint(0, len(f.getvalue())))
+    return f
+
+
+GENERATORS = {"obj:BitstreamReader": gen_reader, "file": gen_file}
